@@ -2840,10 +2840,13 @@ func (s *Server) serveConnCounted(c net.Conn, countConcurrency bool) error {
 		releaseReader(s, br)
 	}
 	if bw != nil {
-		if err == nil && bw.Buffered() > 0 {
-			// The connection ends without an error (shutdown, or the client
-			// stopped sending) while responses to pipelined requests are
-			// still buffered: deliver them before the writer is dropped.
+		if bw.Buffered() > 0 {
+			// The connection ends while responses to pipelined requests are
+			// still buffered: deliver them before the writer is dropped. That
+			// holds for an end with an error too - the response that failed
+			// (a body stream shorter than declared, say) comes after complete
+			// ones that were waiting for the flush. After a write error on
+			// the connection itself Flush does nothing.
 			_ = bw.Flush()
 		}
 		releaseWriter(s, bw)
